@@ -145,6 +145,80 @@ CHECKS.update({
             STATEFUL_NOTE, "3/C06"),
 })
 
+CONSUMER_TEXT = ("The real AIOKafkaConsumer (fetcher, subscription state, client, connections; group-less via assign(), or with a group id "
+                 "for committed offsets) runs on a virtual-time loop against the simulated cluster, which serves logs built by an "
+                 "independent record codec. ")
+
+CHECKS.update({
+    "C03": (MC, "stateless deviation-bounded exhaustive exploration of the real consumer (log shapes x response cuts x call programs x "
+                "schedules x faults) against a reference consumer model",
+            CONSUMER_TEXT + "Every log of <=2 (quick) / <=3 (thorough) stored batches over 8 shapes (v0/v1 messages, gzip wrapper, v2 "
+            "batches incl. compaction gaps, emptied and control batches) x every start offset x every cut into fetch responses, and every "
+            "program of 1-2 tasks over {getone, getone(tp), getmany(max_records), seek, pause, resume, position}, under budget vectors "
+            "of r/p/f deviations (leader move, retriable fetch errors, drops, lost replies). Oracle: a list-per-partition reference model: "
+            "returned records = visible records from the start position, strictly increasing, none skipped or repeated, delivery reaches "
+            "the log end after a quiet horizon, position() bounds, seek precedence, pause / partitions filter.",
+            STATEFUL_NOTE, "3/C03"),
+    "C08": (MC, "exhaustive enumeration of well-formed transactional logs x start offsets x response cuts on the real consumer and on "
+                "PartitionRecords, plus deviation-bounded schedule exploration, vs an independent reference reader",
+            CONSUMER_TEXT + "Every well-formed log of <=4 (quick) / <=6 (thorough) entries over {transactional data (pid 1..3), plain "
+            "data, COMMIT, ABORT incl. solitary abort markers} with whole-batch compaction variants, every fetch start offset and "
+            "every composition of the served batches into responses with the aborted-transaction index the broker computes for that "
+            "range, both isolation levels, compiled and pure-Python record readers. Oracle: read_committed = non-transactional records "
+            "+ records of committed transactions below the LSO, read_uncommitted = every data record below the HW, never a control "
+            "record, position reaches the end of what was served, no fetch repeated without progress.",
+            STATEFUL_NOTE, "3/C08"),
+    "C13": (MC, "exhaustive configuration grid x deviation-bounded exploration (faults on lookups, seek placed at every choice point) of "
+                "the real consumer",
+            CONSUMER_TEXT + "Grid: committed offset {absent, inside, at a marker, above LSO, = log end, below log start, beyond log end} "
+            "x auto_offset_reset {earliest, latest, none} x isolation level x {group id + assign, group-less} x ListOffsets capped at "
+            "v0..v3, log start > 0 and LSO < HW. Faults on OffsetFetch / ListOffsets / FindCoordinator (retriable codes, drops, lost "
+            "replies); a seek() offered at every quiescent point and every loop-iteration boundary between assignment and first "
+            "delivery. Oracle: first delivered record / position() = committed offset if in range, else log start or the end offset "
+            "for the isolation level, else NoOffsetForPartition / OffsetOutOfRange; a seek always wins.",
+            STATEFUL_NOTE, "3/C13"),
+    "C07": (MC, "stateless deviation-bounded exhaustive exploration of the real transactional producer (fault sequences x schedules x "
+                "kill points) against a simulated transaction coordinator, with an independent read-committed reader",
+            "The real transactional AIOKafkaProducer runs against the simulated transaction coordinator (InitProducerId epochs and "
+            "fencing, AddPartitions/AddOffsets/TxnOffsetCommit/EndTxn state machine, marker writes as separately scheduled events, "
+            "CONCURRENT_TRANSACTIONS windows). Ten program families (1-2 transactions over 1-3 partitions, send_offsets, commit/abort, "
+            "concurrent send tasks, kill + second instance with the same transactional id, an ACL family) x net/app-eager baselines x "
+            "budget vectors of r/p/f/k. Oracles: an independent read-committed reader sees all records and offsets of a transaction "
+            "iff commit_transaction() returned, none of an aborted/failed/fenced one; at the instant of writing: no Produce before the "
+            "coordinator acknowledged the partition, no EndTxn while an accepted send is unresolved, no transactional Produce outside "
+            "begin..end; with retriable faults only the transaction ends as requested within the horizon.",
+            STATEFUL_NOTE, "3/C07"),
+    "C16": (MC, "exhaustive enumeration of call sequences x single injected errors on the real transactional producer vs a reference "
+                "model of the documented API",
+            "Every sequence of <=4 (quick) / <=6 (thorough) calls over {begin, send(p0), send(p1), send_offsets, commit, abort, "
+            "transaction() exit clean / with exception}, generated over a ~60-line reference model, x {no fault, one abortable error "
+            "(topic / group ACL as cluster state), one fatal error (fencing by a second InitProducerId, OUT_OF_ORDER_SEQUENCE, "
+            "transactional-id ACL), one retriable error} at each transactional request, net/app-eager baselines. Oracle: per call the "
+            "model's returns / raises; no request caused by an illegal call, none after a fatal error, pending sends fail after a fatal "
+            "error, commit after an abortable error raises it, and a new transaction succeeds after abort.",
+            STATEFUL_NOTE, "3/C16"),
+    "C10": (EX, "exhaustive bounded enumeration of truncations / substitutions / field mutations of valid buffers under an "
+                "AddressSanitizer build",
+            "A corpus of 40 valid buffers (all magics, plain and compressed, mixed-magic concatenations) x every truncation point, every "
+            "byte replaced by 7 boundary values (thorough: all 255), every int32 / varint field replaced by boundary values, inner "
+            "payloads of compressed wrappers mutated before re-compression. Each input is decoded by the compiled codec rebuilt from the "
+            "working tree with AddressSanitizer (system allocator, poisoned trailing byte) under a CPU watchdog, and by the pure-Python "
+            "codec, with and without validate_crc(). Oracle: records or an ordinary exception - never an ASan report, signal, timeout, "
+            "SystemError or MemoryError; a batch whose CRC does not match is reported invalid by both implementations.",
+            "Trusted: AddressSanitizer's reach (reads that stay inside the same heap chunk are invisible). Random byte strings are not "
+            "covered.", "3/C10"),
+    "C19": (MC, "stateless exploration with stop() placed at every choice point (quiescent and mid-cascade) of producer, group-consumer "
+                "and group-less workloads under each cluster condition",
+            "Workloads of C01-C06 with stop() placed by the explorer (budget k) at every choice point and every loop-iteration boundary, "
+            "for each cluster condition in force at that moment (healthy, coordinator down, other broker down, every broker silently "
+            "dropping replies, coordinator failover with / without state). Oracles: stop() returns (and does not raise) within a small "
+            "multiple of the request timeout plus session/rebalance timeout of virtual time; afterwards no task, timer handle or "
+            "transport created by that client is alive (ownership via contextvars), the loop reports no unretrieved exception after "
+            "gc.collect(), later calls raise ProducerClosed / ConsumerStoppedError, and a member whose known coordinator was reachable "
+            "has written LeaveGroup.",
+            STATEFUL_NOTE, "3/C19"),
+})
+
 NOT_APPLICABLE = {}
 
 
